@@ -42,6 +42,37 @@ def fallback_defs(P: Project):
     raise AnalysisError("anchor: `if PYDANTIC_AVAILABLE:` split not found in mcp_pydantic_base")
 
 
+def nested_serialiser_obligations(fb_methods, R):
+    """[(label, ok, line, detail, sample)]: the fallback's nested serialiser maps the elements of free-form lists and
+    dicts one to one (shared by C09-R8 and C06-R3)."""
+    dumpf = fb_methods.get("model_dump")
+    sv = fb_methods.get("_serialize_value")
+    R.need(dumpf is not None, "anchor: fallback model_dump not found")
+    nested_fns = [sv] if sv is not None else [dumpf]
+    out = []
+    n_maps = 0
+    for fnode in nested_fns:
+        for n in walk_local(fnode):
+            if isinstance(n, (ast.ListComp, ast.DictComp, ast.SetComp, ast.GeneratorExp)):
+                n_maps += 1
+                filt = [ast.unparse(i)[:50] for g in n.generators for i in g.ifs]
+                key_ok = True
+                if isinstance(n, ast.DictComp):
+                    tgt = n.generators[0].target
+                    k0 = tgt.elts[0] if isinstance(tgt, ast.Tuple) and tgt.elts else None
+                    key_ok = k0 is not None and ast.unparse(n.key) == ast.unparse(k0)
+                out.append((f"fallback nested serialiser: `{ast.unparse(n)[:40]}…` maps every element", not filt and key_ok, n.lineno,
+                            (f"elements are filtered by `{filt[0]}`" if filt else "dict keys are rewritten") + ": an explicit null (or other member) inside a free-form Dict[str, Any]/List[Any] value — tool arguments, a JSON schema default, _meta, a result payload — is dropped by the fallback and kept by Pydantic, so the two backends re-serialise the same message differently",
+                            f"{fnode.name}: {type(n).__name__} without filter"))
+            if sv is not None and isinstance(n, (ast.For, ast.While)):
+                n_maps += 1
+                cond = [x for x in walk_local(n) if isinstance(x, (ast.Continue, ast.Break)) or (isinstance(x, ast.If) and x is not n)]
+                out.append((f"fallback nested serialiser: loop at line {n.lineno} handles every element", not cond, n.lineno, "a conditional inside the element loop can skip members of a free-form container", ""))
+    if sv is not None:
+        out.append(("the nested serialiser's container branches were examined", n_maps >= 2, sv.lineno, f"{n_maps} element maps found (list and dict branches expected)", ""))
+    return out
+
+
 def class_cache_keys(T, methods):
     """(names defined by two model classes, [(method, key text, key definition, keyed by identity?, line)]) for every
     access to a class-level `…_cache__` mapping in the fallback base class's methods."""
@@ -301,30 +332,8 @@ def check(P: Project, R: Report) -> None:
 
     # ------------------------------------------------------------------ R8: the fallback's dump keeps free-form containers intact
     R.rule("R8", "re-serialisation: Pydantic applies exclude_none to declared fields only, so the fallback's nested serialiser must map the elements of free-form lists and dicts one to one — no filter in its comprehensions, no conditional skip in its loops, dict keys unchanged")
-    dumpf = fb_methods.get("model_dump")
-    sv = fb_methods.get("_serialize_value")
-    R.need(dumpf is not None, "anchor: fallback model_dump not found")
-    nested_fns = [sv] if sv is not None else [dumpf]
-    n_maps = 0
-    for fnode in nested_fns:
-        for n in walk_local(fnode):
-            if isinstance(n, (ast.ListComp, ast.DictComp, ast.SetComp, ast.GeneratorExp)):
-                n_maps += 1
-                filt = [ast.unparse(i)[:50] for g in n.generators for i in g.ifs]
-                key_ok = True
-                if isinstance(n, ast.DictComp):
-                    tgt = n.generators[0].target
-                    k0 = tgt.elts[0] if isinstance(tgt, ast.Tuple) and tgt.elts else None
-                    key_ok = k0 is not None and ast.unparse(n.key) == ast.unparse(k0)
-                R.ob("R8", f"fallback nested serialiser: `{ast.unparse(n)[:40]}…` maps every element", not filt and key_ok, f"{base_rel}:{n.lineno}",
-                     (f"elements are filtered by `{filt[0]}`" if filt else "dict keys are rewritten") + ": an explicit null (or other member) inside a free-form Dict[str, Any]/List[Any] value — tool arguments, a JSON schema default, _meta, a result payload — is dropped by the fallback and kept by Pydantic, so the two backends re-serialise the same message differently",
-                     sample=f"R8 {fnode.name}: {type(n).__name__} without filter")
-            if sv is not None and isinstance(n, (ast.For, ast.While)):
-                n_maps += 1
-                cond = [x for x in walk_local(n) if isinstance(x, (ast.Continue, ast.Break)) or (isinstance(x, ast.If) and x is not n)]
-                R.ob("R8", f"fallback nested serialiser: loop at line {n.lineno} handles every element", not cond, f"{base_rel}:{n.lineno}", "a conditional inside the element loop can skip members of a free-form container")
-    if sv is not None:
-        R.ob("R8", "the nested serialiser's container branches were examined", n_maps >= 2, f"{base_rel}:{sv.lineno}", f"{n_maps} element maps found (list and dict branches expected)")
+    for label, ok, lineno, detail, sample in nested_serialiser_obligations(fb_methods, R):
+        R.ob("R8", label, ok, f"{base_rel}:{lineno}", detail, sample=sample)
 
     # ------------------------------------------------------------------ R5
     union_if = None
@@ -385,4 +394,62 @@ def check(P: Project, R: Report) -> None:
         R.ob("R9", f"fallback {mname}: cache key `{kt}` identifies the class", ok, f"{base_rel}:{lineno}",
              f"key `{full}` is built from the class name only; {', '.join(dup[:4])} … are each defined by two model classes with different field types, so the second class to be validated is checked against the first one's resolved types: a payload valid for it is rejected (or typed as the other variant) under the fallback and accepted by Pydantic",
              sample=f"R9 {mname}: {kt} := {full[:60]}")
+
+    # ------------------------------------------------------------------ R10: a validation failure is caught alike
+    R.rule("R10", "a handler that catches one backend's validation failure catches the other's: Pydantic's ValidationError is a ValueError, the fallback's derives from the bases named in its class statement — a handler around a model validation that names only classes of one of the two lines (and does not simply re-raise) makes acceptance depend on the backend")
+    fbv = classes.get("ValidationError")
+    R.need(fbv is not None, "anchor: the fallback branch no longer defines ValidationError")
+    fb_bases = {ast.unparse(b).split(".")[-1] for b in fbv.bases} or {"Exception"}
+    UP = {"ValueError": "Exception", "TypeError": "Exception", "Exception": "BaseException", "KeyError": "LookupError", "LookupError": "Exception", "ArithmeticError": "Exception", "RuntimeError": "Exception"}
+
+    def closure(names):
+        out = set(names)
+        work = list(names)
+        while work:
+            b = UP.get(work.pop())
+            if b and b not in out:
+                out.add(b)
+                work.append(b)
+        return out
+
+    pyd_line = closure({"ValueError"}) | {"ValidationError"}
+    fb_line = closure(fb_bases) | {"ValidationError"}
+    model_names = {m.name for m in T.models.values()}
+    n_sites = 0
+    for f in sorted(P.funcs.values(), key=lambda f: f.fq):
+        for t in walk_local(f.node):
+            if not isinstance(t, ast.Try):
+                continue
+            vcalls = [c for s_ in t.body for c in walk_local(s_) if isinstance(c, ast.Call) and (call_name(c).endswith((".model_validate", ".model_validate_json")) or call_name(c).split(".")[-1] in model_names)]
+            if not vcalls or not t.handlers:
+                continue
+            n_sites += 1
+
+            def caught(h):
+                if h.type is None:
+                    return {"BaseException"}
+                els = h.type.elts if isinstance(h.type, ast.Tuple) else [h.type]
+                return {ast.unparse(e).split(".")[-1] for e in els}
+
+            hp = next((h for h in t.handlers if caught(h) & pyd_line), None)
+            hf = next((h for h in t.handlers if caught(h) & fb_line), None)
+            if hp is None and hf is None:
+                continue
+            reraise = lambda h: h is not None and bool(h.body) and isinstance(h.body[-1], ast.Raise) and h.body[-1].exc is None
+            same = hp is hf or (reraise(hp) and (hf is None or reraise(hf))) or (hp is None and reraise(hf))
+            R.ob("R10", f"{f.qual}: the handlers around `{call_name(vcalls[0])}` treat both backends' validation failure alike", same, f"{f.module.rel}:{t.lineno}",
+                 f"Pydantic's failure (a ValueError) is taken by `except {ast.unparse(hp.type) if hp is not None and hp.type is not None else '<none>'}`, the fallback's (bases {sorted(fb_bases)}) by `except {ast.unparse(hf.type) if hf is not None and hf.type is not None else '<none: it escapes>'}`: the same invalid-for-this-model payload is handled under one backend and raises under the other",
+                 sample=f"R10 {f.qual}: {call_name(vcalls[0])} under {[ast.unparse(h.type) if h.type else 'bare' for h in t.handlers]}")
+    R.need(n_sites >= 5, f"only {n_sites} guarded model validations found (8 confirmed by hand)")
+
+    # ------------------------------------------------------------------ R11: configuration only one backend reads
+    R.rule("R11", "no protocol model sets a model_config entry that rewrites or restricts values: the fallback honours `extra` alone, so such an entry makes the two backends type or accept the same payload differently")
+    from ..models import config_findings
+
+    cf = config_findings(T)
+    for m, k, v, effect in cf:
+        R.ob("R11", f"{m.name}: model_config is read alike by both backends", False, f"{m.ci.module.rel}:{m.ci.node.lineno}",
+             f"model_config[{k!r}] = {v!r} {effect} — under Pydantic only; the fallback leaves the value as sent")
+    if not cf:
+        R.ob("R11", "model configuration is limited to entries both backends treat alike", True, base_rel, "", sample=f"R11 keys in use: {sorted({k for m in T.models.values() for k in m.config})}")
 
